@@ -50,6 +50,13 @@ fn cell_value(d: &Decoded, c: &Cell) -> Result<V, String> {
 /// `exact_counts`: refcount must equal the number of referencing cells
 /// (false: `>=`, for files whose input over-counted).
 pub fn check_file(bytes: &[u8], snap: &Snapshot, exact_counts: bool) -> Result<Decoded, (String, String)> {
+    check_file_opts(bytes, snap, exact_counts, true)
+}
+
+/// `strict_types`: compare the width / nullable bits of the type words too
+/// (false for files of foreign origin, where an integer may be declared with
+/// width 1 and nullability may come from `_Validation` alone).
+pub fn check_file_opts(bytes: &[u8], snap: &Snapshot, exact_counts: bool, strict_types: bool) -> Result<Decoded, (String, String)> {
     let d = fmt::decode(bytes).map_err(|e| ("undecodable".to_string(), e))?;
     if d.clsid != fmt::clsid_for(snap.ptype) {
         return Err(("clsid".into(), format!("root CLSID {} does not encode package type {}", d.clsid, snap.ptype)));
@@ -77,7 +84,13 @@ pub fn check_file(bytes: &[u8], snap: &Snapshot, exact_counts: bool) -> Result<D
             if &c.name != dname {
                 return Err(("catalog-columns".into(), format!("table {name:?} column {}: _Columns says {dname:?}, the API says {:?}", i + 1, c.name)));
             }
-            let (mask, want) = expected_type_bits(c);
+            let (mut mask, want) = expected_type_bits(c);
+            if !strict_types {
+                mask &= !fmt::T_NULLABLE;
+                if word & fmt::T_STRING == 0 {
+                    mask &= !0xff;
+                }
+            }
             if word & mask != want & mask {
                 return Err(("type-word".into(), format!("table {name:?} column {:?}: type word {word:#06x}, expected bits {want:#06x} (mask {mask:#06x}) for {c:?}", c.name)));
             }
